@@ -155,7 +155,7 @@ def run_case(run, drv, case_seed):
                         fd.write(refspec.encode(refspec.ref_metafile(rname, [((rname,), b"abc")], 16384, 1,
                                                                      single=True)))
                 newp = os.path.join(outdir, rname + ".torrent")
-                if os.path.lexists(newp) and not occupied:
+                if os.path.lexists(newp) and occupied is not True:
                     os.remove(newp)
                 if occupied in ("dir", "link-to-dir", "link-to-file"):
                     # the target name is taken by something that is not a regular file
